@@ -823,7 +823,7 @@ class Ctx:
             raise Undecided("call depth")
         fr = Frame(self, mod, env, f)
         try:
-            if _is_generator(fd):
+            if _is_generator(fd) and self.opts.get("yield_hook") is None:
                 raise Undecided("generator function called outside a step contract")
             try:
                 fr.exec_block(fd.body)
@@ -1132,7 +1132,7 @@ class Frame:
                 raise PathCut()
             if is_for:
                 self.assign(s.target, spec.for_element(ctx, self, ghost))
-            dec0 = spec.variant(ctx, self, ghost) if hasattr(spec, "variant") else None
+            dec0 = spec.variant(ctx, self, ghost) if callable(getattr(spec, "variant", None)) else None
             ctx.in_loop_step = True
             try:
                 self.exec_block(s.body)
@@ -1148,6 +1148,8 @@ class Frame:
             ctx.in_loop_step = False
             if is_for:
                 spec.for_advance(ctx, self, ghost)
+            if hasattr(spec, "after_body"):
+                spec.after_body(ctx, self, ghost)
             ctx.side_check(f"{k}.inv.preserved", spec.invariant(ctx, self, ghost))
             if dec0 is not None:
                 dec1 = spec.variant(ctx, self, ghost)
